@@ -9,7 +9,7 @@ import numpy as np
 from . import common
 from .common import make_rodded, set_int_params, make_unrodded
 
-MODULES = common.RR_MODULES + common.UR_MODULES + ['dassh.assembly']
+MODULES = ['dassh.reactor'] + common.RR_MODULES + common.UR_MODULES + ['dassh.assembly']
 PROPERTY = 'C14'
 FUNCTIONS = ['dassh.region_rodded:RoddedRegion.calculate_pressure_drop',
              'dassh.region_rodded:RoddedRegion.calculate_friction_pressure_drop',
@@ -238,6 +238,10 @@ def configs(tier):
            (unrodded, dict(model='simple')), (unrodded, dict(model='6node')),
            (unrodded, dict(model='simple', gravity=False)), (unrodded, dict(model='6node', gravity=False)),
            (assembly, dict())]
+    # a region accumulates friction and gravity over exactly its own length only if every region boundary is an axial
+    # plane: the mesh loop never skips a boundary, also when two lie within one step (C05's contracts, shared)
+    from . import c05
+    out += [(c05.loop_body, dict(n_bounds=3, req='grid')), (c05.loop_prefix, dict())]
     return out
 
 
